@@ -647,11 +647,25 @@ class Retrieve:
             ds.append(d)
         dl = deferredutil.gatherResults(ds)
         if self._verify:
-            dl.addCallback(lambda ignored: "")
-            dl.addCallback(self._set_segment)
+            dl.addCallback(self._verified_segment)
         else:
             dl.addCallback(self._maybe_decode_and_decrypt_segment, segnum)
         return dl
+
+
+    def _verified_segment(self, results):
+        """
+        I am called in verify mode with the results of fetching and
+        validating one block from each active share.
+        """
+        if None in results:
+            # Some share turned out to be bad and has been dropped. If
+            # another copy of that share number is known it will take its
+            # place, and it is only verified if we look at every segment of
+            # it: start over.
+            self._current_segment = self._start_segment
+            return
+        self._set_segment(b"")
 
 
     def _maybe_decode_and_decrypt_segment(self, results, segnum):
